@@ -103,6 +103,120 @@ def task_get_magnetic_field():
     return col.pack()
 
 
+def task_point_vector():
+    """fields._point_vector (the wrapper of point_source): positions within the nodes (boundary included) are accepted; each component
+    is filled by point_source with the cell CENTRES along its own direction and the NODES across, in (x, y, z) order, for the same position,
+    into the component of a fresh real field on this grid; afterwards component d is scaled by rotation(azimuth, elevation)[d] -- the same
+    rotation factors get_receiver uses; the adjoint source classes of the point receivers are the point sources of the same kind."""
+    import ast
+    col = ob.Collector(PROP, 'fields._point_vector')
+    col.default_replay = replay
+    fn = col.function('fields._point_vector')
+    X = z3.Reals('px py pz az el')
+    lo = {d: z3.Real(f'nodes_{d}_first') for d in 'xyz'}
+    hi = {d: z3.Real(f'nodes_{d}_last') for d in 'xyz'}
+
+    def mk(ctx):
+        log = []
+        grid = cx.Obj('TensorMesh', dict(__strict__=True), mod=None)
+        for d in 'xyz':
+            grid.fields['nodes_' + d] = cx.NDArr(cx.Store('nodes_' + d))
+            grid.fields['cell_centers_' + d] = cx.NDArr(cx.Store('cell_centers_' + d))
+
+        def getitem_hook(it, v, k):
+            return NotImplemented
+
+        def field(it, args, kw, node):
+            f = cx.Obj('Field', dict(grid=args[0], kw=dict(kw), **{c: cx.NDArr(cx.Store('v' + c, z3.RealVal(0))) for c in ('fx', 'fy', 'fz')}, __strict__=True))
+            log.append(('Field', f))
+            return f
+
+        def rotation(it, args, kw, node):
+            log.append(('rotation', list(args)))
+            return cx.Vec([z3.Real('rot_x'), z3.Real('rot_y'), z3.Real('rot_z')])
+        ctx.summaries.update({'fields.Field': field, 'electrodes.rotation': rotation})
+        return [grid, cx.Vec(list(X))], {}, dict(grid=grid, log=log)
+    orig_getitem = cx.Interp.getitem
+
+    def getitem(self, v, k, node=None):
+        # first / last node of a node vector as scalars (the outside test)
+        if isinstance(v, cx.NDArr) and str(v.store.origin).startswith('nodes_') and v.view == 'whole' and k in (0, -1):
+            return (lo if k == 0 else hi)[str(v.store.origin)[-1]]
+        return orig_getitem(self, v, k, node)
+    orig_closure = cx.Interp.call_closure
+
+    def call_closure(self, clo, args, kwargs, node=None):
+        if getattr(clo.node, 'name', '') == 'point_source' and clo.qualname is None:
+            self.ctx.event('point_source', args=list(args))
+            tgt = args[4]
+            tgt.store.version += 1
+            tgt.store.val = z3.Real('w_' + str(tgt.store.origin))
+            return None
+        return orig_closure(self, clo, args, kwargs, node)
+    cx.Interp.getitem = getitem
+    cx.Interp.call_closure = call_closure
+    try:
+        res = cx.run_function('fields._point_vector', mk, pc0=[lo[d] < hi[d] for d in 'xyz'], summaries={}, opts={})
+    finally:
+        cx.Interp.getitem = orig_getitem
+        cx.Interp.call_closure = orig_closure
+    pre = [lo[d] < hi[d] for d in 'xyz']
+    outside = z3.Or(*[z3.Or(X[k] < lo[d], X[k] > hi[d]) for k, d in enumerate('xyz')])
+    # (the statement only speaks about positions inside the grid, nodes included: they must be accepted; what happens outside is not claimed)
+    clause(col, 'positions_within_the_nodes_are_accepted', res,
+           lambda r: z3.Implies(z3.Not(outside), z3.BoolVal(r.outcome == 'return')), pre)
+
+    def wiring(r):
+        if r.outcome != 'return':
+            return None
+        g, log = r.state['grid'], r.state['log']
+        fl = [x for x in log if x[0] == 'Field']
+        ps = [e for e in r.events if e['kind'] == 'point_source']
+        if len(fl) != 1 or len(ps) != 3 or r.value is not fl[0][1] or fl[0][1].fields['grid'] is not g:
+            return False
+        f = fl[0][1]
+        ok = f.fields['kw'].get('dtype') == cx.LibFn('float') or str(f.fields['kw'].get('dtype')) in ("<libfn float>", 'float') or 'float' in str(f.fields['kw'].get('dtype'))
+        for k, (e, comp) in enumerate(zip(ps, ('fx', 'fy', 'fz'))):
+            a = e['args']
+            for j, d in enumerate('xyz'):
+                want = g.fields[('cell_centers_' if j == k else 'nodes_') + d]
+                ok = ok and a[j] is want
+            pos = a[3]
+            ok = ok and isinstance(pos, (list, cx.Vec)) and len(pos) == 3 and all(cx.is_sym(p) and p.eq(X[i]) for i, p in enumerate(pos))
+            ok = ok and isinstance(a[4], cx.NDArr) and a[4].store is f.fields[comp].store
+        return ok
+    clause(col, 'each_component_uses_cell_centres_along_and_nodes_across_for_the_same_position_into_a_fresh_real_field', res, wiring, pre)
+
+    def scaling(r):
+        if r.outcome != 'return':
+            return None
+        log = r.state['log']
+        rot = [x for x in log if x[0] == 'rotation']
+        if len(rot) != 1 or len(rot[0][1]) != 2 or not (rot[0][1][0].eq(X[3]) and rot[0][1][1].eq(X[4])):
+            return False
+        f = r.value
+        gs = []
+        for comp, rname in (('fx', 'rot_x'), ('fy', 'rot_y'), ('fz', 'rot_z')):
+            v = f.fields[comp].store.val
+            if v is None:
+                return False
+            gs.append(v == z3.Real('w_v' + comp) * z3.Real(rname))
+        return z3.And(*gs)
+    clause(col, 'component_d_is_scaled_by_the_rotation_factor_d_of_azimuth_and_elevation', res, scaling, pre)
+    # adjoint source classes (class attributes read from the source)
+    from pyvc import intake
+    tree = intake.module_ast('electrodes')[1]
+    amap = {}
+    for node in tree.body:
+        if isinstance(node, ast.ClassDef):
+            for b in node.body:
+                if isinstance(b, ast.Assign) and any(isinstance(t, ast.Name) and t.id == '_adjoint_source' for t in b.targets):
+                    amap[node.name] = ast.unparse(b.value)
+    col.lia('adjoint_source_of_a_point_receiver_is_the_point_source_of_the_same_kind', [],
+            z3.BoolVal(amap.get('RxElectricPoint') == 'TxElectricPoint' and amap.get('RxMagneticPoint') == 'TxMagneticPoint'))
+    return col.pack()
+
+
 def task_get_receiver():
     col = ob.Collector(PROP, 'fields.get_receiver')
     col.default_replay = replay
@@ -203,7 +317,8 @@ def task_concrete():
 def tasks(tier):
     return [('contracts.c0910', 'task_point_source', dict(prop='C09')), ('contracts.c0910', 'task_edge_curl_factor', {}),
             ('contracts.c0910', 'task_rotation', dict(prop='C09')),
-            ('contracts.c09', 'task_get_magnetic_field', {}), ('contracts.c09', 'task_get_receiver', {}), ('contracts.c09', 'task_concrete', {})]
+            ('contracts.c09', 'task_get_magnetic_field', {}), ('contracts.c09', 'task_get_receiver', {}), ('contracts.c09', 'task_point_vector', {}),
+            ('contracts.c09', 'task_concrete', {})]
 
 
 LEVEL = ('Proof over the real source: point_source computes the product of 1-D hat weights at the unique bracketing cell (symbolic grid, position), '
